@@ -137,3 +137,106 @@ def edit_replay(run, path):
     run.traces = 1
     run.samples += vk.sample_events(r["path"], 2)
     return vk.finish(run, rule="replay of one recorded history")
+
+
+# ------------------------------------------------------------------------------------------------
+# Computing entry points: C08, C09, C10, C12, C14 (+ hash / index part of C04, generators C16)
+
+CALC_CFG = """SPECIFICATION Spec
+CONSTANT PROPS = {%s}
+POSTCONDITION Accepted
+CHECK_DEADLOCK FALSE
+"""
+
+CALC_BOUNDS = {
+    # prop: (quick cases, thorough cases, maxtips quick, maxtips thorough)
+    "C08": (1600, 40000, 10, 16),
+    "C09": (1600, 40000, 9, 14),
+    "C10": (1200, 30000, 9, 14),
+    "C12": (1200, 30000, 9, 13),
+    "C14": (1600, 40000, 10, 16),
+    "C04": (800, 20000, 10, 16),
+    "C16": (600, 12000, 10, 16),
+}
+
+
+def calc_random(run, prop, ncases, maxtips, tag="calc"):
+    """Direction B: seeded random cases on the real code, each recorded call validated by TraceCalc."""
+    shards = min(vk.NCPU, max(1, ncases // 25))
+    per = math.ceil(ncases / shards)
+    cfg = CALC_CFG % ('"%s"' % prop)
+
+    def job(i):
+        def f():
+            path = os.path.join(run.work, "%s-%s-%d.ndjson" % (tag, prop, i))
+            s = vk.run_driver(run, ["calc", "--prop", prop, "--seed", str(run.seed), "--from", str(i * per),
+                                    "--to", str(min(ncases, (i + 1) * per)), "--maxtips", str(maxtips), "--out", path], path)
+            r = vk.validate_trace(run, path, "TraceCalc.tla", cfg)
+            r["summary"] = s
+            return r
+        return f
+    res = vk.parallel([job(i) for i in range(shards)])
+    collect(run, res)
+    kinds = run.extra.setdefault("calls_executed_on_real_code", {})
+    for r in res:
+        run.traces += r["summary"].get("events", 0)
+        for k, v in r["summary"].get("kinds", {}).items():
+            kinds[k] = kinds.get(k, 0) + v
+    if res:
+        run.samples += vk.sample_events(res[0]["path"], 2)
+    return res
+
+
+CALC_RULE = ("model: bounded enumeration by TLC (CalcModel) of small input trees x arguments, with the design-level "
+             "theorems checked on every state and every case replayed on the real code; real code: seeded random "
+             "cases (related tree pairs / collections under several presentations); every recorded call is one TLC "
+             "step that recomputes the result from the definitions (CalcProps) on the projected input trees")
+CALC_ASSUME = ["gotree getters (Root, Neigh, Edges, Left, Right, Name, Length, Support) are trusted",
+               "input lengths are multiples of 2^-4 and supports multiples of 2^-6 so that sums are exact; quotients are compared "
+               "with the exact rational within 10^-4",
+               "TLC, CommunityModules and the Go projection are trusted"]
+
+
+@pipeline("C08", "C09", "C10", "C14")
+def calc_family(run, replay):
+    prop = run.prop
+    run.build_harness()
+    q, t, mq, mt = CALC_BOUNDS[prop]
+    n, maxtips = (q, mq) if run.tier == "quick" else (t, mt)
+    if replay:
+        return calc_replay(run, replay)
+    import models
+    models.calc_model(run, prop)
+    calc_random(run, prop, n, maxtips)
+    return vk.finish(run, rule=CALC_RULE, assumptions=CALC_ASSUME)
+
+
+def calc_replay(run, path, spec="TraceCalc.tla"):
+    """Re-runs one recorded case (same seed, same case index, or the TLC-emitted model case) on the current /repo."""
+    with open(path) as f:
+        hdr = json.loads(f.readline())
+    run.replay_of = path
+    case = hdr.get("case", "")
+    p = os.path.join(run.work, "replay.ndjson")
+    if "model_case" in hdr:
+        cp = os.path.join(run.work, "cases-replay.ndjson")
+        with open(cp, "w") as f:
+            f.write(json.dumps(hdr["model_case"]) + "\n")
+        vk.run_driver(run, ["replay-calc", "--prop", run.prop, "--cases", cp, "--out", p], p)
+    else:
+        try:
+            parts = case.split("-")
+            seed = int(parts[1][1:])
+            k = int(parts[2][1:])
+        except Exception:
+            raise vk.Infra("cannot parse case label %r of replay file" % case)
+        run.seed = seed
+        q, t, mq, mt = CALC_BOUNDS[run.prop]
+        maxtips = mq if hdr.get("tier", "quick") == "quick" else mt
+        vk.run_driver(run, ["calc", "--prop", run.prop, "--seed", str(seed), "--from", str(k), "--to", str(k + 1),
+                            "--maxtips", str(maxtips), "--out", p], p)
+    r = vk.validate_trace(run, p, spec, CALC_CFG % ('"%s"' % run.prop))
+    collect(run, [r])
+    run.traces = 1
+    run.samples += vk.sample_events(r["path"], 2)
+    return vk.finish(run, rule="replay of one recorded case on the current /repo")
